@@ -187,7 +187,7 @@ def split(ctx: Ctx):
     def spec(g, f):
         if f.get(f"$isnone({link})") or f.get(f"{link} is None"):
             return None
-        if f.get(f"{link}.start == {link}.end"):
+        if f.get(f"{link}.start == {link}.end") or f.get(f"{link}.end == {link}.start"):
             return "done"
         return "whole" if g["tt"] <= g["av"] else "split"
     bad = [r for r in cmp.compare_table(rows, spec) if not r[2] == "error"]
@@ -236,4 +236,11 @@ def selftest():
         V("early-return-keeps-route", RT, "    elif TupleOps.head(route_estimate).start == TupleOps.last(route_estimate).end:\n        return None, RouteTraversal()", "    elif TupleOps.head(route_estimate).start == TupleOps.last(route_estimate).end:\n        return None, RouteTraversal(remaining_route=route_estimate)", rule="DU.partition"),
         V("terminal-one-link-left", "nrel/hive/state/vehicle_state/dispatch_base.py", "        return len(self.route) == 0", "        return len(self.route) <= 1", rule="CMP.leave"),
         V("twin-whole-mirror", LT, "        if link.travel_time_seconds <= available_time_seconds:", "        if not (link.travel_time_seconds > available_time_seconds):", kind="twin"),
-    ]
+    ] + _auto()
+
+
+def _auto():
+    from ..loader import Repo
+    from .. import autovariants as av
+    return av.compare_variants(Repo(), [(LT, "traverse_up_to"), (RT, "RouteTraversal.no_time_left")], rule=None)
+
